@@ -52,14 +52,14 @@ def pct_expected(s, safe):
 def run(ctx, res):
     res.rule = ('one mapping with eight object-map kinds (reference literal, template literal, template IRI, reference IRI, template / reference blank node, '
                 'reference-valued language map, template-valued datatype map) plus a template graph map, over tables of composed strings (every character class '
-                'at the start / end / inside a value) x safe_percent_encoding in {empty, :/, /?#} x only_printable_chars; implementation lines must equal the '
+                'at the start / end / inside a value) x safe_percent_encoding in {empty, :/, /?} x only_printable_chars; implementation lines must equal the '
                 'Engine model lines; every line is parsed by pyoxigraph (strict) and by the Gallina reader, and decoded back to the source value; '
                 'distinct = distinct (kind, value) pair; non-trivial = value containing a character outside [A-Za-z0-9]')
     known = set(ctx.known)
     nrows = ctx.scale(250, 2500)
-    variants = [('', False), (':/', False), ('/?#', True), ('', True)]
+    variants = [('', False), (':/', False), ('/?', True), ('', True)]
     if not ctx.quick:
-        variants += [(':/?#[]@!$&()*+,;=', False), ('é', False)]
+        variants += [(':/?@!$&()*+,;=', False), ('é', False)]
     cases = [build_case(ctx.rng, nrows, safe, pr) for safe, pr in variants for _ in range(ctx.scale(1, 3))]
     batch = family.Batch(ctx)
     recs = batch.run(cases, want_spec=False, timeout=600)
